@@ -78,3 +78,48 @@ def uuidEncSafe (vals : List Bytes) (buf : Bytes) : Bytes :=
 
 end Codec
 end Model
+
+namespace Model.Codec
+/-! ### parameters of the generated codecs, per column class -/
+
+/-- wire width in bytes of every fixed-width type that has a generated codec (ClickHouse documentation:
+`IntN`/`UIntN`/`FloatN` are N bits, `Date` 16 and `Date32` 32 bits, `DateTime` 32 and `DateTime64` 64 bits,
+`DecimalN` N bits, `Enum8/16` 8/16 bits, `IPv4` 32 and `IPv6` 128 bits, `FixedString(N)` N bytes) -/
+def classWidth : List (String × Nat) :=
+  [("ColDate", 2), ("ColDate32", 4), ("ColDateTime", 4), ("ColDateTime64", 8), ("ColDecimal128", 16),
+   ("ColDecimal256", 32), ("ColDecimal32", 4), ("ColDecimal64", 8), ("ColEnum16", 2), ("ColEnum8", 1),
+   ("ColFixedStr128", 128), ("ColFixedStr16", 16), ("ColFixedStr256", 256), ("ColFixedStr32", 32),
+   ("ColFixedStr512", 512), ("ColFixedStr64", 64), ("ColFixedStr8", 8), ("ColFloat32", 4), ("ColFloat64", 8),
+   ("ColInt128", 16), ("ColInt16", 2), ("ColInt256", 32), ("ColInt32", 4), ("ColInt64", 8), ("ColInt8", 1),
+   ("ColIPv4", 4), ("ColIPv6", 16), ("ColUInt128", 16), ("ColUInt16", 2), ("ColUInt256", 32), ("ColUInt32", 4),
+   ("ColUInt64", 8), ("ColUInt8", 1)]
+
+/-- number of bytes a byte-order accessor reads or writes (`none` = any, e.g. `copy`) -/
+def accessorWidth (a : String) : Option Nat :=
+  if a == "Uint16" || a == "PutUint16" then some 2
+  else if a == "Uint32" || a == "PutUint32" then some 4
+  else if a == "Uint64" || a == "PutUint64" then some 8
+  else if a == "binUInt128" || a == "binPutUInt128" || a == "binIPv6" || a == "binPutIPv6" then some 16
+  else if a == "binUInt256" || a == "binPutUInt256" then some 32
+  else if a == "array8" then some 8 else if a == "array16" then some 16 else if a == "array32" then some 32
+  else if a == "array64" then some 64 else if a == "array128" then some 128 else if a == "array256" then some 256
+  else if a == "array512" then some 512
+  else none
+
+abbrev CodecRow := String × List Nat × List Nat × List String × List String × List String × List String
+
+/-- a row of the extracted table is what `encSafe`/`decSafe`/`encUnsafe`/`decUnsafe` with `w = classWidth`
+transcribe: both functions of the portable variant and all three of the default variant use the element
+size `w`; the portable variant converts with one little-endian accessor of exactly `w` bytes and advances
+by `size`; one-byte types use no size arithmetic at all -/
+def rowOK (r : CodecRow) : Bool :=
+  match classWidth.lookup r.1 with
+  | none => false
+  | some w =>
+    if w == 1 then r.2.1.isEmpty && r.2.2.1.isEmpty && r.2.2.2.1.isEmpty && r.2.2.2.2.1.isEmpty
+    else
+      r.2.1 == [w, w] && r.2.2.1 == [w, w, w] &&
+      r.2.2.2.1.length == 1 && r.2.2.2.1.all (fun a => accessorWidth a == some w) &&
+      r.2.2.2.2.1.length == 1 && r.2.2.2.2.1.all (fun a => a == "copy" || accessorWidth a == some w) &&
+      r.2.2.2.2.2.1.all (· == "LittleEndian") && r.2.2.2.2.2.2 == ["i += size"]
+end Model.Codec
